@@ -45,9 +45,60 @@ type Meta struct {
 	CreateOp  string   `json:"create_op"`  // operation id of Target's create operation
 	CidOther  string   `json:"cid_other"`  // first comment of Closed
 	CidAmbig  string   `json:"cid_ambig"`  // prefix shared by two comments (may be empty string if none)
+	CidSameBug  string `json:"cid_same_bug"`  // longest prefix shared by two comments of Target
+	CidCrossBug string `json:"cid_cross_bug"` // longest prefix shared by comments of two different bugs
+	// the population, for the independent resolution of prefixes
+	BugInfos []BugInfo     `json:"bug_infos"`
+	Comments []CommentInfo `json:"comments"`
 	H1        string   `json:"h1"`
 	H2        string   `json:"h2"`
 	HMissing  string   `json:"hmissing"`
+}
+
+// BugInfo is what the reference needs to know about a bug of the initial world.
+type BugInfo struct {
+	Id     string   `json:"id"`
+	Title  string   `json:"title"`
+	Labels []string `json:"labels"`
+	Closed bool     `json:"closed"`
+}
+
+// CommentInfo is one comment of the initial world: its combined id, its bug, the id of the
+// operation that created it.
+type CommentInfo struct {
+	Cid string `json:"cid"`
+	Bug string `json:"bug"`
+	Op  string `json:"op"`
+}
+
+// resolveBug is the independent resolution of a bug prefix: every bug whose id starts with it.
+func (m *Meta) resolveBug(prefix string) []BugInfo {
+	var out []BugInfo
+	for _, b := range m.BugInfos {
+		if strings.HasPrefix(b.Id, prefix) {
+			out = append(out, b)
+		}
+	}
+	return out
+}
+
+// resolveComment: every comment whose combined id starts with the prefix.
+func (m *Meta) resolveComment(prefix string) []CommentInfo {
+	var out []CommentInfo
+	for _, c := range m.Comments {
+		if strings.HasPrefix(c.Cid, prefix) {
+			out = append(out, c)
+		}
+	}
+	return out
+}
+
+func lcp(a, b string) string {
+	i := 0
+	for i < len(a) && i < len(b) && a[i] == b[i] {
+		i++
+	}
+	return a[:i]
 }
 
 func gitDir(dir string) string { return filepath.Join(dir, "repo", ".git") }
@@ -102,6 +153,10 @@ func buildWorld(dir string) (*Meta, error) {
 	if err != nil {
 		return nil, err
 	}
+	_, thirdOp, err := bug.AddComment(tb, v, now(), "third comment", nil, nil)
+	if err != nil {
+		return nil, err
+	}
 	if _, _, err := bug.ChangeLabels(tb, v, now(), []string{"existing"}, nil, nil); err != nil {
 		return nil, err
 	}
@@ -112,6 +167,10 @@ func buildWorld(dir string) (*Meta, error) {
 	m.CidFull = entity.CombineIds(tb.Id(), commentOp.Id()).String()
 	m.CidCreate = entity.CombineIds(tb.Id(), createOp.Id()).String()
 	m.CommentOp, m.CreateOp = commentOp.Id().String(), createOp.Id().String()
+	m.BugInfos = append(m.BugInfos, BugInfo{Id: m.Target, Title: "target bug", Labels: []string{"existing"}})
+	for _, op := range []entity.Id{createOp.Id(), commentOp.Id(), thirdOp.Id()} {
+		m.Comments = append(m.Comments, CommentInfo{Cid: entity.CombineIds(tb.Id(), op).String(), Bug: m.Target, Op: op.String()})
+	}
 	// closed bug
 	cb, cOp, err := bug.Create(v, now(), "closed bug", "it is closed", nil, nil)
 	if err != nil {
@@ -125,6 +184,8 @@ func buildWorld(dir string) (*Meta, error) {
 	}
 	m.Closed = cb.Id().String()
 	m.CidOther = entity.CombineIds(cb.Id(), cOp.Id()).String()
+	m.BugInfos = append(m.BugInfos, BugInfo{Id: m.Closed, Title: "closed bug", Closed: true})
+	m.Comments = append(m.Comments, CommentInfo{Cid: m.CidOther, Bug: m.Closed, Op: cOp.Id().String()})
 	m.Bugs = []string{m.Target, m.Closed}
 	cids := []string{m.CidFull, m.CidCreate, m.CidOther}
 	// fillers until two bugs share a first character
@@ -142,13 +203,33 @@ func buildWorld(dir string) (*Meta, error) {
 		}
 		m.Bugs = append(m.Bugs, fb.Id().String())
 		cids = append(cids, entity.CombineIds(fb.Id(), fOp.Id()).String())
+		m.BugInfos = append(m.BugInfos, BugInfo{Id: fb.Id().String(), Title: fmt.Sprintf("filler %d", i)})
+		m.Comments = append(m.Comments, CommentInfo{Cid: entity.CombineIds(fb.Id(), fOp.Id()).String(), Bug: fb.Id().String(), Op: fOp.Id().String()})
 	}
 	if m.Ambiguous == "" {
 		return nil, fmt.Errorf("no ambiguous prefix among %d bugs", len(m.Bugs))
 	}
 	m.Short = uniquePrefix(m.Target, m.Bugs, 1)
-	m.CidShort = uniquePrefix(m.CidFull, cids, 4)
+	cids = nil
+	for _, c := range m.Comments {
+		cids = append(cids, c.Cid)
+	}
+	m.CidShort = uniquePrefix(m.CidFull, cids, 1)
 	m.CidAmbig = sharedPrefix(cids)
+	for i, a := range m.Comments {
+		for _, b := range m.Comments[i+1:] {
+			p := lcp(a.Cid, b.Cid)
+			if a.Bug == m.Target && b.Bug == m.Target && len(p) > len(m.CidSameBug) {
+				m.CidSameBug = p
+			}
+			if a.Bug != b.Bug && len(p) > len(m.CidCrossBug) {
+				m.CidCrossBug = p
+			}
+		}
+	}
+	if m.CidSameBug == "" || m.CidCrossBug == "" {
+		return nil, fmt.Errorf("the population has no comment prefix shared within a bug (%q) or across bugs (%q)", m.CidSameBug, m.CidCrossBug)
+	}
 	for _, c := range []string{"0000000", "1111111", "2222222", "3333333", "4444444", "5555555", "6666666", "7777777", "8888888", "9999999", "aaaaaaa", "bbbbbbb", "ccccccc", "ddddddd", "eeeeeee", "fffffff", "0101010", "1010101"} {
 		hit := false
 		for _, b := range append(append([]string{}, m.Bugs...), cids...) {
@@ -237,6 +318,16 @@ func (m *Meta) value(tag string) any {
 		return m.Target + "00"
 	case "prefix.identity":
 		return m.User
+	case "prefix.short-1":
+		return m.Short[:len(m.Short)-1]
+	case "cid.short-1":
+		return m.CidShort[:len(m.CidShort)-1]
+	case "cid.len1", "cid.len2", "cid.len3", "cid.len4":
+		return m.CidFull[:int(tag[len(tag)-1]-'0')]
+	case "cid.samebug":
+		return m.CidSameBug
+	case "cid.crossbug":
+		return m.CidCrossBug
 	case "cid.full":
 		return m.CidFull
 	case "cid.short":
